@@ -35,21 +35,26 @@ def check(run):
 
     # ---- (a) the property's predicate on the implementation: corrupt real encoded segments
     recs = seglib.run_harness(run, "c07", broken) if "harness" not in fails else []
-    tried = {}
+    tried, sweeps = {}, []
     for r in recs:
         if r["kind"] == "accepted":
             findings.append({"kind": "corruption-accepted", "class": r["class"], "payload": r["desc"], "self_contained": r["sc"], "compressor": r["comp"],
-                             "region": r["region"], "bit_positions": r["bit_positions"], "segment_hex": r.get("segment_hex"), "corrupted_hex": r.get("corrupted_hex"),
-                             "what": "DecodeSegment accepts a segment with bits %s of the %s flipped (%s, payload %s, %s)" % (
-                                 r["bit_positions"], r["region"], r["class"], r["desc"], r["comp"])})
+                             "region": r["region"], "bit_positions": r["bit_positions"], "changed_bytes": r.get("changed_bytes"), "segment_len": r.get("segment_len"),
+                             "segment_hex": r.get("segment_hex"), "corrupted_hex": r.get("corrupted_hex"),
+                             "what": "DecodeSegment accepts a segment with bits %s of the %s flipped (%s, payload %s, %s, self-contained %s; damaged bytes %s)" % (
+                                 r["bit_positions"], r["region"], r["class"], r["desc"], r["comp"], r["sc"],
+                                 ["region byte %s: %s -> %s" % (c["region_byte_offset"], c["original"], c["corrupted"]) for c in (r.get("changed_bytes") or [])][:8])})
         elif r["kind"] == "c07_base_failed":
             broken.append("harness c07: base segment unusable: %s" % r)
         elif r["kind"] == "c07_summary":
             tried = r["tried"]
+            sweeps = r.get("sweeps") or []
             if r["accepted"] > 50:
                 run.note("%d accepted corruptions in all (first 50 listed)" % r["accepted"])
     if recs and not tried:
         broken.append("harness c07 produced no summary")
+    if recs and tried and not any(w.get("decodes", 0) >= w.get("bytes_swept", 1) >= 65536 for w in sweeps):
+        broken.append("harness c07 ran no position-exhaustive sweep of a payload of at least 64 KiB")
 
     # ---- (b) correspondence: decoder model vs implementation on damaged inputs (truncations, flips, hand-made headers)
     recs6 = seglib.run_harness(run, "c06", broken) if "harness" not in fails else []
@@ -88,11 +93,15 @@ def check(run):
     run.coverage["distinct_nontrivial"] = ntried
     run.coverage["rule"] = ("implementation: 13 real encoded segments (payload 0..131071 bytes, both flags, nil and LZ4 compressor); every single-bit flip of header+CRC-24 "
                             "and of short payloads+CRC-32 (sampled on long ones), pairs of flips in payload||CRC-32 (all pairs on short segments, sampled incl. closest and "
-                            "farthest on long ones), bursts of 2..32 bits with random interior at random and trailing offsets, 1..4 damaged consecutive bytes, header "
+                            "farthest on long ones), bursts of 2..32 bits with random interior at random and trailing offsets, 1..4 damaged consecutive bytes; on every "
+                            "transmitted payload of 64 KiB and more: all 8 flips, whole-byte and two-byte damage and 9/17/32-bit bursts at every power of two and every "
+                            "multiple of 4096 bytes with neighbours (65535, 65536, 131070 ...), at the first and last payload bytes and in the CRC-32 field, and a "
+                            "position-exhaustive sweep flipping one bit in EVERY byte of payload||CRC-32 of a 131071-byte payload (thorough: all 8 bits of every byte, every long base); header "
                             "patterns of weight 2..3 exhaustively and 4..7 sampled (thorough: ..4/5 exhaustively); non-trivial = a corrupted segment handed to DecodeSegment; "
                             "each must be rejected; correspondence = decoder model vs DecodeSegment on truncations, flips and hand-made headers inside coqc")
     run.coverage["samples"] = [{"class": k, "corruptions_tried": v} for k, v in sorted(tried.items())][:12]
     run.coverage["exhaustive"] = False
+    run.coverage["position_exhaustive_sweeps"] = sweeps
     run.coverage["input_distribution"] = {"corruption_classes": tried, "decoder_inputs": dict(collections.Counter(r["what"] for r in recs6 if r["kind"] == "raw"))}
 
     if run.tier == "thorough" and pr["ok"]:
@@ -103,4 +112,6 @@ def check(run):
 
     seglib.finish(run, "C07", findings, broken,
                   "decode corrupted_hex with segment.NewCodec() / NewCodecWithCompression(lz4.Compressor{}) (or flip the listed bit positions, counted from the start of the region, "
-                  "least significant bit of each byte first, in the segment built from the payload descriptor): ./build/harness-seg c07 quick")
+                  "least significant bit of each byte first, in the segment built from the payload descriptor; region 'payload' = transmitted payload || CRC-32, i.e. "
+                  "it starts after the 6-byte (nil compressor) or 8-byte (lz4) header+CRC-24; changed_bytes lists offset, original and corrupted value of each damaged byte): "
+                  "./build/harness-seg c07 quick")
